@@ -34,9 +34,6 @@ fn main() {
             });
         }
     }
-    if avoid_d31() {
-        ctx.notes.push("VERIF_AVOID=D31: positional sub-patterns on void payloads are not generated".into());
-    }
     placement_selftest(&u, &mut ctx);
     // placement dimension (D70): case i sits at placement (i + 5) mod 17; every third case is also
     // checked at the let-initialiser placement and both verdicts must agree
